@@ -467,7 +467,12 @@ namespace _ST_PRIVATE
                 *dest++ = badchar_substitute;
             } else {
                 error = write_utf16(dest, bigch);
-                ST_ASSERT(error == conversion_error_t::success, "Input character out of range");
+                if (error != conversion_error_t::success) {
+                    // Decoded value is beyond U+10FFFF, so UTF-16 cannot hold it
+                    if (validation == ST::check_validity)
+                        return error;
+                    *dest++ = badchar_substitute;
+                }
             }
         }
 
